@@ -5,6 +5,7 @@
 #include <thread>
 #include <locale>
 #include <cerrno>
+#include <clocale>
 VH_MAIN_GLOBALS
 using namespace vh;
 
@@ -199,6 +200,14 @@ int main(int argc, char **argv) {
         struct Comma : std::numpunct<char> { char do_decimal_point() const override { return ','; } char do_thousands_sep() const override { return '.'; } std::string do_grouping() const override { return "\3"; } };
         std::locale::global(std::locale(std::locale(), new Comma));
         out.cell("environment:global-locale-with-decimal-comma-and-grouping");
+    }
+    // the C library's locale as well (built by the check with localedef, found through LOCPATH): decimal comma, digit grouping.
+    // Whatever the text looks like under it, what is exported in this process must come back exactly in this process.
+    if (args.has("clocale")) {
+        const char *got = setlocale(LC_ALL, args.s("clocale", "").c_str());
+        char probe[32]; snprintf(probe, sizeof probe, "%.1f", 1.5);
+        out.stat(J().s("kind", "environment").s("requested_c_locale", args.s("clocale", "")).s("setlocale", got ? got : "(unavailable)").s("printf_of_1.5", probe));
+        out.cell(got && probe[1] == ',' ? "environment:c-locale-with-decimal-comma" : "environment:c-locale-unavailable");
     }
     IoGen g(rng);
     std::vector<Kind> K = io_kinds();
